@@ -6,6 +6,7 @@ import PetgraphModel.Proofs.C12Min
 import PetgraphModel.Proofs.C12Kruskal
 import PetgraphModel.Proofs.C12Heap
 import PetgraphModel.Proofs.C12Prim
+import PetgraphModel.Proofs.C12W2Complete
 /-
 C12 — `min_spanning_tree` yields a minimum spanning forest; `min_spanning_tree_prim` a minimum
 spanning tree of the first node's component.
@@ -256,7 +257,8 @@ theorem C12_accepted_case (v : View) (er : List (Nat × Nat × Nat)) (hv : viewO
   obtain ⟨hg, hk, hp⟩ := viewOkB_sound hv
   exact ⟨kruskal_on_graph v hk hg er (erOkB_sound her), fun hd => (prim_correct v (hp hd)).2⟩
 
-/-! Part 6 — what is NOT proved -/
+/-! Part 6 — what wave 1 left open (the statement below is now PROVED in Part 7 as
+`C12_judge_complete`; the definition and the partial result are kept for reference) -/
 
 /-- Completeness of the judge: every stream that satisfies the property is accepted (no false
 alarms).  Missing: (a) fuel sufficiency of `Oracle.reachFrom` (it never answers `none` — the `must`
@@ -273,6 +275,86 @@ theorem C12_judge_complete_partial (E F : List Edge) (hs : F.Sublist E) (hac : A
     (hsp : Spanning E F) : F ∈ (subs E).filter fun F => forestMay [] F && spanMay E F := by
   simp only [List.mem_filter, Bool.and_eq_true]
   exact ⟨mem_subs hs, forestMay_complete F [] (by simpa using hac), spanMay_complete hsp⟩
+
+/-! Part 7 — wave 2: the judge is complete (what Part 6 left open, now proved) -/
+
+/-- the reachability oracle never runs out of fuel (`Proofs/ReachTotal.lean`), so the judge's
+connectivity question is a decision procedure for `Conn` -/
+theorem C12_connQ_decides (F : List Edge) (a b : Nat) :
+    (connQ F a b = some true ↔ Conn F a b) ∧ (connQ F a b = some false ↔ ¬ Conn F a b) :=
+  ⟨connQ_true_iff, connQ_false_iff⟩
+
+/-- **Necessity of the cycle property** (the exchange argument): in a minimum spanning forest `M` of
+`E` with unused edges `R`, every forest edge on the forest path between the endpoints of an unused
+non-loop edge `e` weighs at most `e.w` — otherwise replacing it by `e` gives a lighter spanning
+forest.  With `C12_cycle_property_min` the certificate the judge checks is *equivalent* to minimality
+(`C12_cycle_property_iff_min`). -/
+theorem C12_min_cycle_property (E M R : List Edge) (hperm : (M ++ R).Perm E)
+    (hmin : MinSpanningForest E M) : CycleProperty M R :=
+  minimal_cycleProperty hperm hmin
+
+theorem C12_cycle_property_iff_min (E M R : List Edge) (hperm : (M ++ R).Perm E) :
+    MinSpanningForest E M ↔ Acyclic M ∧ Spanning E M ∧ CycleProperty M R :=
+  ⟨fun h => ⟨h.1.acyclic, h.1.spanning, minimal_cycleProperty hperm h⟩,
+   fun h => C12_cycle_property_min E M R hperm h.1 h.2.1 h.2.2⟩
+
+/-- the greedy matching of stream edges with distinct graph edges never fails on a stream that
+denotes some sub-multiset of the edges, and what it finds has, position by position, the same
+unordered endpoints and weight -/
+theorem C12_matchEdges_complete (E M R : List Edge) (S : List (Nat × Nat × Int))
+    (hperm : (M ++ R).Perm E) (hd : DenotesAll S M) :
+    ∃ M' R', matchEdges S E = some (M', R') ∧ (M' ++ R').Perm E ∧ DenotesAll S M' ∧ Sim M M' := by
+  obtain ⟨M', R', h⟩ := matchEdges_of_subMulti hperm hd
+  obtain ⟨hp, hd'⟩ := matchEdges_spec h
+  exact ⟨M', R', h, hp, hd', sim_of_denotes hd hd'⟩
+
+/-- **Completeness of the judge — no false alarms** (`C12_judge_complete_statement`, as stated): on a
+well-formed graph, every edge stream that denotes a minimum spanning forest is accepted, for every
+brute-force bound. -/
+theorem C12_judge_complete : C12_judge_complete_statement :=
+  fun _ _ _ _ _ _ hV hends hperm hd hmin => judgeForest_complete hV hends hperm hd hmin
+
+/-- hence the judge *decides* the property on well-formed graphs: accepted ⇔ the stream denotes a
+minimum spanning forest of `(V, E)` -/
+theorem C12_judge_iff (V : List Nat) (E : List Edge) (bound : Nat) (S : List (Nat × Nat × Int))
+    (hV : V.Nodup) (hends : ∀ e ∈ E, e.src ∈ V ∧ e.tgt ∈ V) :
+    judgeForest V E bound S = none ↔
+      ∃ M R, (M ++ R).Perm E ∧ DenotesAll S M ∧ MinSpanningForest E M := by
+  constructor
+  · intro h
+    obtain ⟨M, R, acc⟩ := judgeForest_sound h
+    exact ⟨M, R, acc.perm, acc.denotes, acc.spanningForest,
+      cycleProperty_minimal acc.perm acc.acyclic acc.spanning acc.cycleProp⟩
+  · rintro ⟨M, R, hperm, hd, hmin⟩
+    exact judgeForest_complete hV hends hperm hd hmin
+
+/-- completeness of Prim's clause: on a non-empty graph, a stream that denotes a minimum spanning
+forest of the edges inside the first node's component is accepted; on the empty graph the empty
+stream is -/
+theorem C12_judge_prim_complete (V : List Nat) (E : List Edge) (bound : Nat)
+    (S : List (Nat × Nat × Int)) :
+    (V = [] → S = [] → judgePrimEdges V E bound S = none) ∧
+    ∀ s rest comp M R, V = s :: rest → (∀ x, x ∈ comp ↔ Conn E s x) →
+      (M ++ R).Perm (edgesWithin comp E) → DenotesAll S M → MinSpanningForest (edgesWithin comp E) M →
+      judgePrimEdges V E bound S = none := by
+  constructor
+  · rintro rfl rfl; rfl
+  · rintro s rest comp M R rfl hcomp hperm hd hmin
+    obtain ⟨comp', hc'⟩ := Oracle.reachFrom_total (ug E) s
+    obtain ⟨hnd, hmem⟩ := Oracle.reachFrom_spec _ _ _ hc'
+    have hmem' : ∀ x, x ∈ comp' ↔ Conn E s x := hmem
+    have hew : edgesWithin comp E = edgesWithin comp' E := by
+      unfold edgesWithin
+      apply List.filter_congr
+      intro e _
+      have h1 : comp.contains e.src = comp'.contains e.src := by
+        rw [Bool.eq_iff_iff]; simp only [List.contains_iff_mem]; rw [hcomp, hmem']
+      have h2 : comp.contains e.tgt = comp'.contains e.tgt := by
+        rw [Bool.eq_iff_iff]; simp only [List.contains_iff_mem]; rw [hcomp, hmem']
+      rw [h1, h2]
+    rw [hew] at hperm hmin
+    simp only [judgePrimEdges, hc']
+    exact judgeForest_complete hnd (fun e he => (mem_edgesWithin.mp he).2) hperm hd hmin
 
 /-! non-vacuity: the judge accepts a genuine minimum spanning forest of a graph with a cycle, a
 parallel pair, a self-loop and two components, and rejects a heavier spanning forest -/
